@@ -104,6 +104,20 @@ def gen_LatexGates(repo):
                 entries[name] = ".swap"
             else:
                 raise ValueError("LatexGates: unrecognised `impl Latex for %s`" % name)
+        # `declare_controlled_latex!(T)` used directly in a gate file (any path prefix): it expands to the
+        # forwarding impl `self.cgate.latex(bits, state)`, i.e. exactly the `.ctrl` classification above
+        for m in re.finditer(r"(?<![\w!])(?:\$?crate::)?(?:gates::controlled::)?declare_controlled_latex!\s*[\(\[\{]\s*(\w+)\s*[\)\]\}]", src):
+            name = m.group(1)
+            if name.startswith("$") or fn == "controlled.rs" and name == "name":
+                continue
+            sm = re.search(r"struct\s+%s\s*\{[^}]*cgate:\s*crate::gates::C<crate::gates::(\w+)>" % name, src, flags=re.S)
+            if not sm:
+                raise ValueError("LatexGates: cannot find the controlled type of %s (declare_controlled_latex!)" % name)
+            entries[name] = '.ctrl "%s"' % sm.group(1)
+        # every concrete gate type of the file must have been classified
+        for m in re.finditer(r"impl\s+crate::gates::Gate\s+for\s+(\w+)\s*\n", src):
+            if m.group(1) not in entries and m.group(1) not in ("Composite", "Loop"):
+                raise ValueError("LatexGates: no `impl Latex` recognised for gate %s in %s" % (m.group(1), fn))
     # controlled gates declared by macro
     csrc = T.strip_rust_comments(T.read(repo, "src/gates/controlled.rs")).split("#[cfg(test)]")[0]
     if "self.cgate.latex(bits, state)" not in (impl_block(csrc, r"macro_rules!\s+declare_controlled_latex") or ""):
